@@ -14,7 +14,7 @@ theorems quantify over all action lists. Faithful details that matter:
   * `Closing` sets `closing` (atomically with respect to `addToPending`) and then calls `OnClose`
     for every entry *without* holding the connection's lock, so other handlers interleave between
     the notifications (`closing` then one `notifyNext` per entry); it does not delete entries;
-  * `executeInternal(false)` with a failing Send is the explicit `diverged` outcome.
+  * `executeInternal(false)` with a failing Send moves on to the plan's next host.
 -/
 namespace CqlVerif.Core
 open CqlVerif.Retry
@@ -69,7 +69,6 @@ structure St where
   nconn : Nat := 0
   pool : Host → List (Option ConnId)      -- connPool.conns per host (slots may be empty)
   out : List Rep := []
-  diverged : Bool := false
 
 def upd {α} (f : Nat → α) (i : Nat) (v : α) : Nat → α := fun j => if j = i then v else f j
 @[simp] theorem upd_same {α} (f : Nat → α) (i : Nat) (v : α) : upd f i v i = v := by simp [upd]
@@ -126,12 +125,12 @@ def execNext (s : St) (r : ReqId) (ws : List Bool) : List Host → St
     if ok then s' else execNext s' r ws.tail rest
 
 /-- executeInternal(next = false) -/
-def execSame (s : St) (r : ReqId) (w : Bool) : St :=
+def execSame (s : St) (r : ReqId) (ws : List Bool) : St :=
   match (s.req r).host with
   | none => finish s r none
   | some h =>
-    let (s', ok) := sendHost s h (.req r) w
-    if ok then s' else { s' with diverged := true }
+    let (s', ok) := sendHost s h (.req r) (ws.headD true)
+    if ok then s' else execNext s' r ws.tail (s'.req r).plan
 
 /-- request.OnResult for a backend answer `o` to frame `origin` -/
 def onResult (s : St) (r : ReqId) (o : Outcome) (origin : Handle) (ws : List Bool) : St :=
@@ -142,7 +141,7 @@ def onResult (s : St) (r : ReqId) (o : Outcome) (origin : Handle) (ws : List Boo
   | o =>
     match Retry.decide q.idem q.rc o with
     | .returnError => finish s r (some origin)
-    | .retrySame => execSame (s.setReq r { q with rc := q.rc + 1 }) r (ws.headD true)
+    | .retrySame => execSame (s.setReq r { q with rc := q.rc + 1 }) r ws
     | .retryNext => execNext (s.setReq r { q with rc := q.rc + 1 }) r ws q.plan
 
 /-- request.OnClose -/
@@ -155,7 +154,7 @@ def onClose (s : St) (r : ReqId) (ws : List Bool) : St :=
 /-- request.Execute(next) (called by prepareRequest.OnResult) -/
 def execute (s : St) (r : ReqId) (next : Bool) (ws : List Bool) : St :=
   if (s.req r).done then s
-  else if next then execNext s r ws (s.req r).plan else execSame s r (ws.headD true)
+  else if next then execNext s r ws (s.req r).plan else execSame s r ws
 
 def removeEntry (p : List (BS × Handle)) (b : BS) : List (BS × Handle) := p.filter (fun e => e.1 ≠ b)
 
